@@ -10,6 +10,14 @@ import dataclasses
 import typing as t
 
 
+def _show(val: t.Any) -> str:
+    """`str(val)` for display in an error message. Never raises (e.g. for ints beyond `sys.get_int_max_str_digits()`)."""
+    try:
+        return str(val)
+    except Exception:
+        return f"<unprintable {type(val).__name__}>"
+
+
 class ParseInterrupt(Exception):
     """
     Raised by [`Converter`][pane.converters.Converter]s to indicate that a given parsing path has failed
@@ -88,7 +96,7 @@ class WrongTypeError(ErrorNode):
         if inside_sum:
             print(f"{self.expected}", file=file)
         else:
-            print(f"Expected {self.expected}, instead got `{self.actual}` of type `{type(self.actual).__name__}`", file=file)
+            print(f"Expected {self.expected}, instead got `{_show(self.actual)}` of type `{type(self.actual).__name__}`", file=file)
         if self.info is not None:
             print(f"{indent}{self.info}", file=file)
         if self.cause is not None:
@@ -135,7 +143,7 @@ class WrongLenError(ErrorNode):
         if inside_sum:
             print(f"{self.expected} (length {len_range})", file=file)
         else:
-            print(f"Expected {self.expected} of length {len_range}, instead got `{self.actual}` of length {self.actual_len}", file=file)
+            print(f"Expected {self.expected} of length {len_range}, instead got `{_show(self.actual)}` of length {self.actual_len}", file=file)
 
 
 @dataclasses.dataclass
@@ -153,7 +161,7 @@ class ConditionFailedError(ErrorNode):
         if inside_sum:
             print(self.expected, end="", file=file)
         else:
-            print(f"Expected {self.expected}, instead got `{self.actual}`", end="", file=file)
+            print(f"Expected {self.expected}, instead got `{_show(self.actual)}`", end="", file=file)
         if self.cause is not None:
             s = f"{indent}\n".join(self.cause.format())
             print(f"\nFailed to call condition '{self.condition}':\n{indent}{s}", file=file)
@@ -238,7 +246,7 @@ class SumErrorNode(ErrorNode):
         if self.actual is not _UNSET:
             # variants may report a part (or a converted form) of the value; show what the union itself was given
             actual = self.actual
-        print(f"{indent}Instead got `{actual}` of type `{type(actual).__name__}`", file=file)
+        print(f"{indent}Instead got `{_show(actual)}` of type `{type(actual).__name__}`", file=file)
 
 
 __all__ = [
